@@ -23,6 +23,7 @@ LEVEL_TEXT = (
     "the real pmf is observed on EVERY unordered progeny genotype: it sums to one, equals the brute-force model, and with "
     "zero error is positive exactly when trio_valid/duo_valid pass; gamete pmfs are observed on every gamete and sum to one."
 )
+LEVEL_TEXT += ' Session 3: the kernels are called with scratch arrays holding garbage and extra padding (as the sampler does); validity on clonal edges; single-parent shapes that pass on fewer copies than the parent has; and PEDERR itself - PedigreeAllelesMultiTrace.incongruence over generated mixed-ploidy traces - equals the fraction of steps whose zero-error probability is zero.'
 LEVEL_NOTE = "Trusts the brute-force oracle in vlib/oracles/pedigree.py (subset enumeration of parental copies); tolerance 1e-9."
 RULE = (
     "case = one (parents, ploidies, tau, lambda, error, frequencies) configuration with all its progeny genotypes enumerated; "
